@@ -274,14 +274,20 @@ def main():
         else:
             g['bad'].append({'status': ob.status, 'path': ob.path, 'line': ob.line, 'solver': ob.detail[:3000]})
     base_path = os.path.join(HERE, 'baseline', prop + '.json')
+    shapes = {i['function']: {'loops': i.get('loops', ''), 'params': i.get('params', [])} for i in infos}
     if a.update_baseline:
         os.makedirs(os.path.dirname(base_path), exist_ok=True)
+        json.dump(shapes, open(base_path[:-5] + '.shapes.json', 'w'), indent=1, sort_keys=True)
         # 'safe' obligations are opportunistic (a side condition proved on the spot; otherwise the raising path is explored
         # and must satisfy the function's exceptional contract): they are not part of the baseline
         json.dump(sorted(k for k, g in agg.items() if g['kind'] not in ('canary', 'safe') and g['ok'] == g['n']),
                   open(base_path, 'w'), indent=1)
     baseline = set(json.load(open(base_path))) if os.path.exists(base_path) else set()
 
+    sp = base_path[:-5] + '.shapes.json'
+    base_shapes = json.load(open(sp)) if os.path.exists(sp) else {}
+    # functions whose loop structure or signature differs from the one the contracts were written for
+    drifted = {fn for fn, sh in shapes.items() if fn in base_shapes and base_shapes[fn] != sh}
     known = [k for k in load_known() if k.get('property') == prop and k.get('status', 'known') == 'known']
     known_obl = {o for k in known for o in k.get('obligations', [])}
     known_keys = {k['key'] for k in known if k.get('key')}
@@ -299,7 +305,7 @@ def main():
             continue
         if oid in known_obl:
             continue
-        if g['kind'] in PROPERTY_KINDS:
+        if g['kind'] in PROPERTY_KINDS and g['function'] not in drifted:
             violations.append((oid, g))
         else:
             # an auxiliary step of the proof (loop invariant, variant): its failure means the PROOF no longer goes through --
@@ -319,9 +325,10 @@ def main():
         if native_new:
             violations.append((oid, g))          # confirmed on the real code: reported with the oracle's failing input
         else:
-            undecided.append('PROOF-BROKEN obligation=%s (%s) %s; auxiliary proof step, no failing input found on the real '
-                             'code: property undecided' % (oid, g['text'][:90],
-                                                            'passed on the unchanged tree' if oid in baseline else 'not in the baseline'))
+            why = ('the loop structure / signature of %s differs from the one its contract was written for' % g['function']
+                   if g['function'] in drifted else 'auxiliary proof step')
+            undecided.append('PROOF-BROKEN obligation=%s (%s) %s; %s, no failing input found on the real code: property undecided'
+                             % (oid, g['text'][:90], 'passed on the unchanged tree' if oid in baseline else 'not in the baseline', why))
 
     # ---- known findings: print one line each (confirmed by failing obligation and/or bounded oracle)
     for k in known:
